@@ -12,7 +12,7 @@ RULE = ('Part stress: the same wide-gate stress netlists as in C13. Part window:
         'float32). Oracles: (a) own static-timing window per line and lane (earliest/latest input transition plus min/max line delays, walked over '
         'the circuit graph): every finite timestamp lies inside, lines that cannot switch have none, s[4]/s[5] inside; (b) all input transitions '
         'shifted by a dyadic amount => every timestamp shifted by exactly that amount, same entry counts and overflow marks; (c) times and delays '
-        'scaled by 2^k => timestamps scaled; (d) polarity-independent delays => strictly increasing timestamps in every waveform. '
+        'scaled by 2^k (k in -6..6, sometimes +-38..70) => timestamps scaled; (d) polarity-independent delays => strictly increasing timestamps in every waveform. '
         'A third of the cases runs the simulator under test with c_reuse=True: (a)-(c) are then checked on the captured rows (s[3..6], s[10]), the per-line checks on a second simulator. '
         'non-trivial: some line carries >= 2 finite timestamps and some gate has >= 2 switching operands; distinct by SHA-1 of the case.')
 ASSUMPTIONS = ['per-line checks read a simulator with c_reuse off; a third of the cases additionally run with c_reuse and check the captured rows s[3..6, 10]', 'window oracle walks the Circuit object built through the public API']
@@ -28,7 +28,7 @@ def cases(draw, tier):
     pre = draw(st.one_of(st.none(), W.input_waves(n, lanes)))
     return dict(nl=nl, lanes=lanes, waves=waves, pre=pre, dpool=draw(W.DELAY_POOL), caps=draw(W.CAPS), f64=draw(st.booleans()),
                 strip_forks=draw(st.booleans()), pol_indep=draw(st.booleans()), c_reuse=draw(st.sampled_from([False, False, True])),
-                shift=draw(st.integers(-4096, 8192)), scale=draw(st.integers(-6, 6)), cuda=draw(st.sampled_from([False, False, False, True])),
+                shift=draw(st.integers(-4096, 8192)), scale=draw(st.one_of(st.integers(-6, 6), st.integers(-6, 6), st.sampled_from([-70, -60, -44, -38, 38, 44, 60, 70]))), cuda=draw(st.sampled_from([False, False, False, True])),
                 nds=draw(st.sampled_from([1, 1, 2, 3])), gsel=draw(st.integers(0, 2)), mix=draw(st.sampled_from([0, 0, 1, 2, 3, 5, 6])),
                 zf=draw(st.booleans()))
 
